@@ -1,6 +1,6 @@
 (* C08 — facts about the strings minted by the task namer: "%s%d" is injective
    on (base, counter) as long as the base does not end in a digit. *)
-From Coq Require Import List String Ascii NArith Arith Bool Lia DecimalString DecimalNat.
+From Coq Require Import List String Ascii NArith Arith Bool Lia DecimalString DecimalNat DecimalN.
 Import ListNotations.
 Require Import BS.C08.Model.
 Local Open Scope string_scope.
@@ -93,7 +93,7 @@ Proof.
   assert (Some (Nat.to_uint n) = Some (Nat.to_uint m)) as E'.
   { rewrite <- !NilEmpty.usu. now rewrite E. }
   inversion E' as [E2].
-  rewrite <- (Unsigned.of_to n), <- (Unsigned.of_to m). now rewrite E2.
+  rewrite <- (DecimalNat.Unsigned.of_to n), <- (DecimalNat.Unsigned.of_to m). now rewrite E2.
 Qed.
 
 Lemma dec_nonempty : forall n, dec n <> "".
@@ -102,7 +102,7 @@ Proof.
   assert (Some (Nat.to_uint n) = Some Decimal.Nil) as E'.
   { rewrite <- NilEmpty.usu. rewrite E. reflexivity. }
   inversion E' as [E2].
-  pose proof (Unsigned.of_to n) as H. rewrite E2 in H. simpl in H. subst n. discriminate.
+  pose proof (DecimalNat.Unsigned.of_to n) as H. rewrite E2 in H. simpl in H. subst n. discriminate.
 Qed.
 
 (* ---- render ---- *)
@@ -213,5 +213,5 @@ Theorem prefixed_disjoint : forall i j s, prefixed i s -> prefixed j s -> i = j.
 Proof.
   intros i j s [x ->] [y E]. unfold inv_prefix in E. rewrite !append_assoc in E.
   simpl in E. inversion E as [E'].
-  apply decN_inj. eapply digits_underscore_split; eauto using decN_digits.
+  apply decN_inj. apply (digits_underscore_split (decN i) (decN j) x y); auto using decN_digits.
 Qed.
